@@ -195,6 +195,12 @@ pub fn exec(f: &[&str]) -> Option<String> {
             Ok(v) => { let got = show_value(&v); if got == *want { "ok".into() } else { format!("MISMATCH text read as {}", got) } }
             Err(_) => "MISMATCH rejected".into(),
         },
+        // C10: a proper prefix of a valid encoding (or another malformed byte string) must be rejected
+        // by from_slice as well: the text fallback must not turn it into a document
+        ["fsreject", h] => match jsonb::from_slice(&unhex(h)?) {
+            Ok(v) => format!("MISMATCH accepted as {}", show_value(&v)),
+            Err(_) => "ok".into(),
+        },
         // the text is malformed by construction: it must be rejected with an error
         ["jreject", h] => match jsonb::parse_value(&unhex(h)?) {
             Ok(v) => format!("MISMATCH accepted as {}", show_value(&v)),
